@@ -304,6 +304,12 @@ Definition gauss_ok_exact (sparse : bool) (mean : Qvec) (S : Qmat) (off : Qvec) 
   mat_close tol9 (qmm S T) (qid (length S)).
 Definition check_gauss (sparse : bool) (mean : Qvec) (S : Qmat) (off : Qvec) (T : Qmat) : bool :=
   gauss_ok false sparse mean S off T || gauss_ok true sparse mean S off T || gauss_ok_exact sparse mean S off T.
+(* EXACT cells: diagonal and triangular matrices with power-of-two diagonals and small dyadic entries, for which every
+   floating-point solve is exact: the read-off map must be the exact inverse of the stored square root, no tolerance *)
+Definition check_gauss_exact (mean : Qvec) (S : Qmat) (off : Qvec) (T : Qmat) : bool :=
+  is_square S && ql_eqb off (bmean (length S) mean) && has_shape (length S) (length S) T &&
+  qll_eqb (qmm S T) (qid (length S)) && qll_eqb (qmm T S) (qid (length S)).
+Definition check_draw_exact (off : Qvec) (T : Qmat) (z obs : Qvec) : bool := ql_eqb obs (affine_draw off T z).
 Definition check_gauss_state (sparse : bool) (mean : Qvec) (S : Qmat) (off : Qvec) (T : Qmat) : nat :=
   (if gauss_ok false sparse mean S off T then 1 else 0) + (if gauss_ok true sparse mean S off T then 2 else 0).
 Definition check_stored (n : nat) (f : sp_form) (S : Qmat) : bool := qll_eqb (stored_sqrtprec n f) S.
